@@ -174,6 +174,11 @@ def evaluate(case) -> Verdict:
             ls = oc.outcome_of(lambda: summ(e4.get_template(name, globals=g, **kw)))
             la = oc.outcome_async(lambda: _summ_async(e5, name, g, kw, summ))
             _cmp(v, "load", ls, la)
+            # a second request (a cache hit for caching loaders) with other globals
+            g2 = {"gx": 2, "x": "from-globals"} if g else {"gy": 3}
+            ls2 = oc.outcome_of(lambda: summ(e4.get_template(name, globals=g2, **kw)))
+            la2 = oc.outcome_async(lambda: _summ_async(e5, name, g2, kw, summ))
+            _cmp(v, "load-again", ls2, la2)
             if ls[0] == "ok" and la[0] == "ok":
                 rs = oc.outcome_of(lambda: e4.get_template(name, globals=g, **kw).render(**data))
                 ra = oc.outcome_async(lambda: _render_loaded_async(e5, name, g, kw, data))
